@@ -36,6 +36,13 @@ def scratch_root():
     return _scratch_root
 
 
+def remove_scratch():
+    global _scratch_root
+    if _scratch_root is not None:
+        shutil.rmtree(_scratch_root, ignore_errors=True)
+        _scratch_root = None
+
+
 def scratch(name):
     d = os.path.join(scratch_root(), name)
     os.makedirs(d, exist_ok=True)
@@ -117,7 +124,8 @@ def run_tlc(
     if workers is None:
         workers = min(16, os.cpu_count() or 1)
     meta = tempfile.mkdtemp(prefix="meta.", dir=workdir)
-    cmd = ["java", "-XX:+UseParallelGC", "-Xss32m"]
+    # TLC creates an empty tlc-<n> directory under java.io.tmpdir per run: keep it inside the run's scratch directory
+    cmd = ["java", "-XX:+UseParallelGC", "-Xss32m", "-Djava.io.tmpdir=" + meta]
     if java_opts:
         cmd += list(java_opts)
     if deque:
